@@ -32,6 +32,8 @@ def units(tier):
         for (a, b) in runs:
             rot += 1
             where = ("first", "second", "both", "absent")[rot % 4]
+            if where == "absent" and rot % 8 >= 4:
+                where = "absent_dir"       # no such file, but a directory of that name on the include path
             nested = 0
             if b - a >= 3:
                 nested = (1, 2, 0)[rot % 3] if b - a >= 4 else (1, 0)[rot % 2]
@@ -102,6 +104,9 @@ def inc_prog(ctx):
     elif where == "both":
         api.put_file(d1 + "/" + fname, body)
         api.put_file(d2 + "/" + fname, decoy)
+    elif where == "absent_dir":
+        api.put_file(d1 + "/" + fname + "/other.inc", decoy)
+        where = "absent"
     if inner is not None and where != "absent":
         # the inner file is in the first directory; a decoy of the same name sits next to the outer
         # file when that one lives in the second directory (first directory in order must win)
